@@ -306,6 +306,16 @@ class MessageManager(interfaces.TokenInterface, interfaces.MessageManager):
         next_retransmission.cancel()
         if message.mtype is RST:
             messageerror_monitor()
+            # Whatever else is held back on behalf of the same monitor (later
+            # notifications of the observation that was just rejected) must
+            # not go out any more
+            backlog = self._backlogs.get(message.remote)
+            if backlog:
+                backlog[:] = [
+                    (m, monitor)
+                    for (m, monitor) in backlog
+                    if monitor is not messageerror_monitor
+                ]
         self.log.debug("Exchange removed, message ID: %d.", message.mid)
 
         self._continue_backlog(message.remote)
@@ -421,6 +431,17 @@ class MessageManager(interfaces.TokenInterface, interfaces.MessageManager):
             self._send_empty_ack(
                 request.remote, mid, "Token reused before request was ACKed"
             )
+
+        # A new request on a token ends whatever went on on that token before;
+        # responses still waiting for their turn (held-back notifications of
+        # an observation on that token) are not to be sent any more.
+        backlog = self._backlogs.get(request.remote)
+        if backlog:
+            backlog[:] = [
+                (m, monitor)
+                for (m, monitor) in backlog
+                if not (m.code.is_response() and m.token == request.token)
+            ]
 
         if request.mtype == CON:
 
